@@ -2,7 +2,7 @@
     Statements only.  Both construction paths are judged by verified checkers. *)
 From Coq Require Import List NArith Sorting.Sorted.
 From MOC.Base Require Import RangeSet.
-From MOC.Model Require Import Qty Ops1D ST Sweep2D.
+From MOC.Model Require Import Qty Ops1D ST Sweep2D TSIter.
 Import ListNotations.
 Open Scope N_scope.
 
@@ -71,6 +71,16 @@ Theorem C09_range2d_executable_model : forall es,
   tchain 0 (r2d_build es) /\ nofuse (r2d_build es).
 Proof. exact r2d_build_spec. Qed.
 
+(** the store's path end to end (range-2D construction, then time_space_iter, which gathers the
+    following entries with an equal coverage into one element): exactly the observations are covered,
+    every element has a non-empty canonical time list and a non-empty canonical coverage, and the
+    elements follow each other in time *)
+Theorem C09_store_path_as_written : forall es,
+  (forall e, In e es -> fst (fst e) < snd (fst e) /\ Canon (snd e)) ->
+  (forall t x, cov2 (time_space_iter (r2d_build es)) t x <-> exists e, In e es /\ inr (fst e) t /\ cov (snd e) x) /\
+  STchain 0 (time_space_iter (r2d_build es)).
+Proof. exact store_build_spec. Qed.
+
 Print Assumptions C09_observations_pointset.
 Print Assumptions C09_depends_on_observation_set_only.
 Print Assumptions C09_built_moc_checker_exact.
@@ -78,3 +88,4 @@ Print Assumptions C09_stmoc_validity_checker_exact.
 Print Assumptions C09_range2d_validity_checker_exact.
 Print Assumptions C09_range2d_construction_as_written.
 Print Assumptions C09_range2d_executable_model.
+Print Assumptions C09_store_path_as_written.
